@@ -12,6 +12,7 @@ import (
 	"runtime/debug"
 	"strconv"
 	"strings"
+	"syscall"
 	"testing"
 	"time"
 )
@@ -91,8 +92,67 @@ func superviseCheck(prop string) int {
 	cmd.Stdout = os.Stdout
 	cmd.Stderr = ef
 	cmd.Stdin = nil
-	runErr := cmd.Run()
+	// wall-clock watchdog around the whole check: generous (a quick tier takes a minute or two), so that a workload wedged by
+	// a library call that never returns ends with a verdict instead of hanging its caller for ever
+	limit := 40 * time.Minute
+	if os.Getenv("VERIF_TIER") == "thorough" {
+		limit = 8 * time.Hour
+	}
+	if v := envInt("VERIF_WATCHDOG_S", 0); v > 0 {
+		limit = time.Duration(v) * time.Second
+	}
+	if err := cmd.Start(); err != nil {
+		ef.Close()
+		return 3
+	}
+	waitCh := make(chan error, 1)
+	go func() { waitCh <- cmd.Wait() }()
+	var runErr error
+	hung := false
+	select {
+	case runErr = <-waitCh:
+	case <-time.After(limit):
+		hung = true
+		_ = cmd.Process.Signal(syscall.SIGQUIT) // goroutine dump to the stderr file
+		select {
+		case runErr = <-waitCh:
+		case <-time.After(20 * time.Second):
+			_ = cmd.Process.Kill()
+			runErr = <-waitCh
+		}
+	}
 	ef.Close()
+	if hung {
+		dump, _ := os.ReadFile(errPath)
+		tail := string(dump)
+		if len(tail) > 60000 {
+			tail = tail[:60000]
+		}
+		c := newCheckCtx(prop)
+		c.rule = "the check did not finish within its wall-clock watchdog"
+		c.eval(1)
+		c.nontrivial("watchdog")
+		c.nontrivial("goroutine-dump")
+		c.sample("watchdog")
+		inLib := ""
+		for _, fn := range []string{"shmipc-go.(*Stream).readMore", "shmipc-go.(*Stream).Flush", "shmipc-go.(*Stream).close", "shmipc-go.(*Session).AcceptStream",
+			"shmipc-go.(*Session).waitForSendErr", "shmipc-go.(*listener).Accept", "shmipc-go.(*SessionManager).Close", "shmipc-go.newSession", "shmipc-go.(*Session).Close"} {
+			if strings.Contains(tail, fn) {
+				inLib = fn
+				break
+			}
+		}
+		progress := map[string]bool{"C05": true, "C07": true, "C10": true, "C11": true, "C14": true, "C16": true, "C17": true, "C19": true, "C20": true}
+		if inLib != "" && progress[prop] {
+			c.violation("watchdog", map[string]interface{}{"goroutines": tail},
+				"the %s workload did not finish within %v: goroutines are blocked inside %s (a call that does not return)", prop, limit, inLib)
+		} else {
+			c.inconclusiveCase("watchdog", fmt.Sprintf("check did not finish within %v", limit))
+			c.noObservation("watchdog")
+		}
+		c.wall = time.Since(c.start).Seconds()
+		return c.finish()
+	}
 	stderr, _ := os.ReadFile(errPath)
 	if data, err := os.ReadFile(marker); err == nil {
 		// the check reached its verdict; relay what it wrote to stderr and its exit code
